@@ -52,6 +52,48 @@ pub fn ptype(t: &Type<PortableForm>) -> Value {
     let b = proj::body(Mode::Plain, t);
     json!({"path": b["path"], "params": b["params"], "docs": b["docs"], "def": b["def"]})
 }
+// ---- the same values after conversion to the PORTABLE form (C17: kept "in both forms"); type ids are blanked,
+// everything else (names, type names, docs, indices, order, erased members) must be what was supplied
+fn blank(mut v: Value) -> Value {
+    fn go(v: &mut Value) {
+        match v {
+            Value::Object(o) => {
+                for (k, x) in o.iter_mut() {
+                    if k == "ty" {
+                        *x = match x { Value::Array(a) => json!(a.iter().map(|_| "*").collect::<Vec<_>>()), _ => json!("*") };
+                    } else {
+                        go(x)
+                    }
+                }
+            }
+            Value::Array(a) => a.iter_mut().for_each(go),
+            _ => {}
+        }
+    }
+    go(&mut v);
+    v
+}
+pub fn mfield_p(f: &Field<MetaForm>) -> Value {
+    use scale_info::IntoPortable;
+    blank(pfield(&f.clone().into_portable(&mut scale_info::Registry::new())))
+}
+pub fn mfields_p(fs: &[Field<MetaForm>]) -> Value {
+    json!(fs.iter().map(mfield_p).collect::<Vec<_>>())
+}
+pub fn mvariant_p(v: &Variant<MetaForm>) -> Value {
+    use scale_info::IntoPortable;
+    blank(pvariant(&v.clone().into_portable(&mut scale_info::Registry::new())))
+}
+pub fn mvariants_p(vs: &scale_info::TypeDefVariant<MetaForm>) -> Value {
+    json!(vs.variants.iter().map(mvariant_p).collect::<Vec<_>>())
+}
+pub fn mtype_p(t: &Type<MetaForm>) -> Value {
+    use scale_info::IntoPortable;
+    blank(ptype(&t.clone().into_portable(&mut scale_info::Registry::new())))
+}
 pub fn out(i: usize, v: Value) {
     println!("{}", json!({"i": i, "res": v}));
+}
+pub fn out2(i: usize, v: Value, p: Value) {
+    println!("{}", json!({"i": i, "res": v, "pres": p}));
 }
